@@ -102,6 +102,27 @@ ResolveOK(r) == \A p \in 1..Len(r) : Resolve(r, p-1) = Some(r[p]) /\ Resolve(r, 
 Body(e) == [path |-> e.path, params |-> e.params, def |-> e.def, docs |-> e.docs]
 WithId(b, i) == [id |-> i, path |-> b.path, params |-> b.params, def |-> b.def, docs |-> b.docs]
 
+(***************************************************************************)
+(* Equality of two registries up to a renaming of ids: starting from seed  *)
+(* pairs <<id in r1, id in r2>> (the ids returned for the same root),      *)
+(* follow references pairwise; the relation reached must be a partial      *)
+(* bijection under which every paired entry of r1 maps onto its partner.   *)
+(***************************************************************************)
+MinNat(a, b) == IF a < b THEN a ELSE b
+RECURSIVE IsoGrow(_, _, _)
+IsoGrow(M, r1, r2) ==
+  LET nxt == M \cup UNION { LET a == Refs(r1[p[1]+1]) b == Refs(r2[p[2]+1]) IN
+                              {<<a[k], b[k]>> : k \in 1..MinNat(Len(a), Len(b))} : p \in M }
+  IN IF nxt = M THEN M ELSE IsoGrow(nxt, r1, r2)
+IsBijection(S) == \A p, q \in S : (p[1] = q[1]) <=> (p[2] = q[2])
+RegIso(r1, r2, seeds) ==
+  IF ~(WellFormed(r1) /\ WellFormed(r2)) THEN TRUE        \* ill-formedness is C01's finding
+  ELSE LET M == IsoGrow(seeds, r1, r2)
+           f == [a \in {x[1] : x \in M} |-> CHOOSE b \in {x[2] : x \in M} : <<a, b>> \in M] IN
+       /\ Len(r1) = Len(r2)
+       /\ IsBijection(M)
+       /\ \A p \in M : Body(MapRefs(r1[p[1]+1], LAMBDA a : f[a])) = Body(r2[p[2]+1])
+
 RECURSIVE ReachIds(_, _)
 ReachIds(r, S) ==
   LET nxt == S \cup UNION {Range(Refs(r[i+1])) : i \in S} IN IF nxt = S THEN S ELSE ReachIds(r, nxt)
